@@ -119,6 +119,7 @@ def build(sc, seed):
         n, p = Xo.shape
     # ---------------- groups
     grp = None
+    groups_permuted = False
     if s in ("GroupBCD", "GroupProxNewton"):
         ptr, idx = gen.groups_random(rng, p, 4, permuted=bool(rng.integers(2)))
         if dg and dg["shape"] == "single_group":
@@ -128,6 +129,7 @@ def build(sc, seed):
             cuts = sorted(set([0, min(2, p), min(3, p), min(4, p), p]))
             ptr, idx = cuts, list(range(p))
         grp = (ptr, idx)
+        groups_permuted = list(idx) != list(range(len(idx)))
         dfd = dict(dfd, grp_ptr=ptr, grp_indices=idx)
     # ---------------- scale / alpha
     prob0 = dict(X=Xo, y=y, datafit=dfd, penalty={"kind": "L2", "alpha": 0.0}, fit_intercept=fi)
@@ -271,7 +273,7 @@ def build(sc, seed):
         haswouter=int(s not in ("LBFGS",)),
     )
     return dict(prob=prob, X=Xo, y=y, dfd=dfd, pen=pen, solver=s, kw=kw, w_init=w_init,
-                Xw_init=Xw_init, tol=tol, flags=flags, scale=scale)
+                Xw_init=Xw_init, tol=tol, flags=flags, scale=scale, groups_permuted=groups_permuted)
 
 
 def run(sc, seed, tid, keep_arrays=False):
@@ -279,10 +281,11 @@ def run(sc, seed, tid, keep_arrays=False):
     from . import skl, tracer as TR
     b = build(sc, seed)
     s = b["solver"]
-    Xs = gen.to_storage(b["X"], sc["storage"])
+    Xs = gen.to_storage(b["X"], "csc_explicit" if sc.get("explicit_zeros") and sc["storage"] == "csc" else sc["storage"])
     fam = "pn" if s in ("ProxNewton",) else "cd"
     tr = TR.Tracer(b["prob"], b["tol"], strategy=sc["strategy"] if s != "LBFGS" else "subdiff",
-                   family=fam, meta=dict(sc, seed=seed), keep_arrays=keep_arrays)
+                   family=fam, meta=dict(sc, seed=seed, groups_permuted=bool(b["groups_permuted"])),
+                   keep_arrays=keep_arrays)
     slv = skl.solver(s, **b["kw"])
     df = None if sc["datafit"] == "None" else skl.datafit(b["dfd"])
     pen = skl.penalty(b["pen"])
